@@ -7,24 +7,30 @@ ALL = ["C%02d" % i for i in range(1, 21)]
 # id -> dict(level, text, note, technique, design_ref, engine)
 CHECKS = {
  "C01": dict(level="translation_validation", engine="E3 enum + cyref/pgeval",
-   text="Translation validation over a completely enumerated bounded space: every query text built from <= 2 (quick) / <= 3 (thorough) features of a feature grammar over the "
-        "supported read fragment (5.4k / 166k texts, parsed by the real parser) is translated by the real translator and its pgsql AST is evaluated by pgeval on every "
-        "property graph of the query's sliced domain (<= 2 nodes, <= 2 edges quick; <= 3/3 thorough; self loops, parallel edges, kind-less nodes, missing and mixed-type "
-        "properties) and compared with the reference openCypher evaluator cyref (bag equality; sequence where ORDER BY is total; block-wise with ties; sub-bag for SKIP/LIMIT). "
-        "Both models are bound to real backends at the start of every run by replaying the project's integration corpus (expectations recorded against live PostgreSQL and Neo4j). "
-        "A disagreement is attributed to a known finding only if cyref reproduces the SQL rows exactly with that known deviation switched on.",
+   text="Translation validation over completely enumerated finite families: (1) every query text built from <= 2 (quick) / <= 3 (thorough) features of a feature grammar over the supported "
+        "read fragment (5.6k / 166k texts); (2) all 2- and 3-step path patterns over 8 step shapes; (3) reading clauses x projections x result modifiers; (4) a cross-clause data-flow family "
+        "(11 producers x 35 consumers); (5) every read query of the repository corpora and its single-edit neighbourhood. Each text is parsed by the real parser, translated by the real "
+        "translator, and its pgsql AST is evaluated by pgeval on every property graph of the query's sliced domain (<= 2 nodes / 2 edges quick, <= 3 / 3 thorough) and on every graph within a "
+        "fixed edit distance of the graph obtained by instantiating the query's own patterns; the rows are compared with the reference openCypher evaluator cyref (bag equality; sequence where "
+        "ORDER BY is total; block-wise with ties; sub-bag for SKIP/LIMIT). Both models are bound to real backends at the start of every run by replaying the project's integration corpus "
+        "(expectations recorded against live PostgreSQL and Neo4j); if the translated SQL no longer reproduces a recorded result, that is a violation. A disagreement is attributed to a known "
+        "finding only if cyref reproduces the SQL rows exactly with the smallest set (<= 3) of known-deviation switches on.",
    note="There is no PostgreSQL in the sandbox: pgeval (interpreter of the emitted pgsql AST, 387 corpus expectations reproduced, 0 mismatches) and cyref (375 reproduced, 0 mismatches) "
-        "are the trusted base; statements pgeval does not model (shortest-path harnesses, temporal, regex outside a common subset, collation-dependent ordering) are counted as outside, "
-        "never judged. SQL run-time errors count as 'rejected with an error'. Graph bounds and the sliced attribute domains are stated in the evidence.",
+        "are the trusted base; statements pgeval does not model (plpgsql shortest-path harnesses, temporal types, nextval, data-modifying statements) are counted as outside, never judged. "
+        "Families (2)-(5) and three-feature texts run in a tame graph regime (no self loops, no parallel relationships, one value type per key); queries with two or more variable-length "
+        "steps are skipped outside family (1): outside these limits the recorded deviations combine in ways that cannot all be attributed, and what cannot be attributed is not judged. "
+        "22 known findings (semantic deviations of DAWGS from openCypher, each reproduced by a cyref switch).",
    technique="bounded exhaustive translation validation (query texts x graphs) against a reference evaluator; models conformance-checked against recorded real-backend results",
    design_ref="4/C01, 10.4"),
  "C02": dict(level="translation_validation", engine="E3 enum + pgeval/cyref",
-   text="For every enumerated query (as C01, plus seeds that trigger the AST rewrite rules and the lowerings the grammar does not reach) the SQL of the production translation "
+   text="For every query of C01's families (plus seeds that trigger the AST rewrite rules and the lowerings the grammar does not reach) the SQL of the production translation "
         "(all optimisations) and of the unoptimised translation (a Translator that never receives a plan; reached through a verif-tagged overlay hook) are evaluated by pgeval "
-        "on every graph of the query's domain and must return the same bag (cardinality only where SKIP/LIMIT cuts an order that is not total); where the optimiser rewrites the "
-        "Cypher, the rewritten query is compared with the original by cyref. Single-lowering configurations are evaluated too but only as diagnostics.",
-   note="Same trusted base as C01. A difference is attributed to a known finding only if both SQL results are reproduced exactly by cyref with known C01 deviations switched on and the "
-        "deviation sets differ (the optimisation removes or introduces a known translation defect). Hybrid configurations (one lowering removed) are not deciders: a lowering may rely on another.",
+        "on every graph of the query's domain and of its witness neighbourhood and must return the same bag (cardinality only where SKIP/LIMIT cuts an order that is not total); where the "
+        "optimiser rewrites the Cypher, the rewritten model (including its PathDirectionReversed flags) is compared with the original by cyref. Single-lowering configurations are evaluated "
+        "in the thorough tier, as diagnostics only.",
+   note="Same trusted base and regime as C01. A difference is attributed to a known finding only if both SQL results are reproduced exactly by cyref with known C01 deviations switched on and the "
+        "deviation sets differ (the optimisation removes or introduces a known translation defect), or if the optimised rows equal the reference and the baseline is wrong in one of three "
+        "recorded ways. Hybrid configurations (one lowering removed) are not deciders: a lowering may rely on another.",
    technique="bounded exhaustive differential translation validation (optimised vs unoptimised SQL on all enumerated graphs)",
    design_ref="4/C02, 10.4"),
  "C03": dict(level="exploration", engine="E3 enum + pgbind",
